@@ -281,6 +281,7 @@ def c04(tier, seed):
                "exhaustive enumeration of exported files, parsed with an independent TypeScript grammar")
     _e2("main", tier, "C04", r)
     _e2("strings", tier, "C04", r)
+    _e2("docs", tier, "C04", r)
     for feats, m in _graph(tier, "C04"):
         r.absorb(m, ("graph-esm." if feats else "graph-cjs."))
     if tier == "thorough":
